@@ -493,9 +493,13 @@ class Env:
             self.arrival_ms += 3
             if p["kind"] in ("orig", "re"):
                 self.events.append({"k": "arr", "s": p["s"], "re": 1 if p["kind"] == "re" else 0, "hi": self.hi})
-            self.loop.run(self.tR.handle(p["data"], self.arrival_ms))
+            coro = self.tR.handle(p["data"], self.arrival_ms)
         else:
-            self.loop.run(self.tS.handle(p["data"], self.arrival_ms))
+            coro = self.tS.handle(p["data"], self.arrival_ms)
+        try:
+            self.loop.run(coro)
+        except Exception as exc:   # an exception escaping a handler of the code: recorded, the run goes on
+            self.events.append({"k": "exc", "name": type(exc).__name__})   # (lock-step replays and random runs alike)
         self._flush_step()
         return self.outbox
 
